@@ -137,9 +137,17 @@ func readLoop(kind int64, cfg []int, bufsize int, cr *chunkReader) (events []Val
 			var p *rtp.Packet
 			if p, err = rtp.ReadPacket(br, cfg); err == nil {
 				h.OnPack(p)
+			} else if p != nil {
+				// the whole frame was consumed but is not usable (unknown channel / bad RTP header)
+				events = append(events, L(L(I(3)), off()))
+				err = nil
 			}
 		default:
-			err = svc.VerifReceive(br, cfg, h)
+			n := len(events)
+			if err = svc.VerifReceive(br, cfg, h); err == nil && len(events) == n {
+				// receive dropped a frame and goes on
+				events = append(events, L(L(I(3)), off()))
+			}
 		}
 		if err != nil {
 			var ue *url.Error
